@@ -318,25 +318,25 @@ func RunAll(o RunOpts) {
 }
 
 type E2ECaseJSON struct {
-	Format    string      `json:"format"`
-	Kafka     string      `json:"kafka_version"`
-	RC        bool        `json:"read_committed"`
-	FetchDef  int32       `json:"fetch_default"`
-	FetchMax  int32       `json:"fetch_max"`
-	ChanBuf   int         `json:"channel_buffer"`
-	Req       int64       `json:"requested_offset"`
-	Oldest    int64       `json:"oldest"`
-	Newest    int64       `json:"newest"`
-	Script    []Directive `json:"script"`
-	Stall     []int       `json:"stall_before"`
-	Extra     int         `json:"extra_partitions"`
-	Units     []string    `json:"units"`
-	Got       []int64     `json:"delivered_offsets"`
-	Started   int64       `json:"first_fetch_offset"`
-	StartErr  string      `json:"start_error,omitempty"`
-	Complete  bool        `json:"complete"`
-	Closed    bool        `json:"closed_by_consumer"`
-	Icept     int         `json:"interceptors,omitempty"`
+	Format   string      `json:"format"`
+	Kafka    string      `json:"kafka_version"`
+	RC       bool        `json:"read_committed"`
+	FetchDef int32       `json:"fetch_default"`
+	FetchMax int32       `json:"fetch_max"`
+	ChanBuf  int         `json:"channel_buffer"`
+	Req      int64       `json:"requested_offset"`
+	Oldest   int64       `json:"oldest"`
+	Newest   int64       `json:"newest"`
+	Script   []Directive `json:"script"`
+	Stall    []int       `json:"stall_before"`
+	Extra    int         `json:"extra_partitions"`
+	Units    []string    `json:"units"`
+	Got      []int64     `json:"delivered_offsets"`
+	Started  int64       `json:"first_fetch_offset"`
+	StartErr string      `json:"start_error,omitempty"`
+	Complete bool        `json:"complete"`
+	Closed   bool        `json:"closed_by_consumer"`
+	Icept    int         `json:"interceptors,omitempty"`
 }
 
 func E2EJSON(sc E2EScenario, res E2EResult) E2ECaseJSON {
